@@ -34,7 +34,7 @@ fn kind_of(site: &str) -> &'static str {
 }
 
 #[derive(Clone, Debug, PartialEq)]
-enum St {
+pub enum St {
     Running,
     Parked(&'static str, u64),
     Finished,
@@ -96,6 +96,11 @@ impl Gates {
         m.lock().unwrap().st.insert(a, St::Running);
     }
 
+    pub fn tid_of(&self, a: i64) -> Option<i64> {
+        let (m, _) = &*self.0;
+        m.lock().unwrap().tids.get(&a).copied()
+    }
+
     /// Called by the actor's own thread: lets the controller look it up in /proc.
     pub fn set_tid(&self, a: i64) {
         let tid = unsafe { libc::syscall(libc::SYS_gettid) } as i64;
@@ -115,14 +120,14 @@ impl Gates {
         match std::fs::read_to_string(format!("/proc/self/task/{}/syscall", tid)) {
             Ok(s) => {
                 let nr = s.split_whitespace().next().and_then(|x| x.parse::<i64>().ok());
-                matches!(nr, Some(7) | Some(271) | Some(47) | Some(45) | Some(46) | Some(44) | Some(232) | Some(281))
+                matches!(nr, Some(7) | Some(271) | Some(441) | Some(47) | Some(45) | Some(46) | Some(44) | Some(232) | Some(281))
             },
             Err(_) => false,
         }
     }
 
     /// Wait until `a` is parked at a new gate, finished, or asleep in the kernel.
-    fn wait_quiescent(&self, a: i64, not_gen: u64, ms: u64) -> Option<St> {
+    pub fn wait_quiescent(&self, a: i64, not_gen: u64, ms: u64) -> Option<St> {
         let deadline = Instant::now() + Duration::from_millis(ms);
         loop {
             if let Some(st) = self.wait_settled(a, not_gen, 1) {
@@ -168,7 +173,7 @@ impl Gates {
     }
 
     /// Wait until actor `a` is parked or finished (None on timeout: it is inside the kernel).
-    fn wait_settled(&self, a: i64, not_gen: u64, ms: u64) -> Option<St> {
+    pub fn wait_settled(&self, a: i64, not_gen: u64, ms: u64) -> Option<St> {
         let (m, cv) = &*self.0;
         let deadline = Instant::now() + Duration::from_millis(ms);
         let mut t = m.lock().unwrap();
@@ -186,7 +191,7 @@ impl Gates {
         }
     }
 
-    fn grant(&self, a: i64) {
+    pub fn grant(&self, a: i64) {
         let (m, cv) = &*self.0;
         let mut t = m.lock().unwrap();
         *t.grants.entry(a).or_insert(0) += 1;
